@@ -16,7 +16,7 @@ from checks.common.cases import explore_cases
 PROP = 'C20'
 LEVEL = 'exploration'
 SHARDS = {'quick': 4, 'thorough': 16}
-BUDGET_S = {'quick': 40, 'thorough': 400}
+BUDGET_S = {'quick': 150, 'thorough': 400}
 RULE = ('streams of keys for thresholds 0.5 ... 0.002: uniform, Zipf, all-distinct, and adversarial streams in '
         'which bucket b-j holds floor(w/j) keys added j times each so that they just survive every later '
         'compaction; additions through add(), update(iterable), update(mapping of counts) and update(**kwargs); '
@@ -272,7 +272,7 @@ def check(c, st):
 
 
 def run(ctx):
-    explore_cases(ctx, gen, check, {'quick': 1000, 'thorough': 20000}[ctx.tier], 'tc')
+    explore_cases(ctx, gen, check, {'quick': 600, 'thorough': 20000}[ctx.tier], 'tc')
     if ctx.thorough:
         # long streams, clauses every 97th addition
         def gen_long(r):
